@@ -82,7 +82,8 @@ LearnBegin ==
 BatchBegin ==
   /\ pc = "batch"
   /\ started' = {} /\ finished' = <<>> /\ pc' = "samples"
-  /\ UNCHANGED <<P, epoch, bi, red, accG, accL, w, elog, trainLoss, valLoss, valAcc, flags, saved, caller, vpend, vseen>>
+  /\ red' = 0 /\ accG' = <<>> /\ accL' = <<>>
+  /\ UNCHANGED <<P, epoch, bi, w, elog, trainLoss, valLoss, valAcc, flags, saved, caller, vpend, vseen>>
 
 Running == started \ {finished[i] : i \in 1..Len(finished)}
 
@@ -97,19 +98,21 @@ SampleStart(s) ==
 SampleDone(s) ==
   /\ pc = "samples" /\ s \in Running
   /\ finished' = Append(finished, s)
-  /\ IF Len(finished') = BatchLen(P, bi)
-       THEN pc' = "reduce" /\ red' = 0 /\ accG' = <<>> /\ accL' = <<>>
-       ELSE UNCHANGED <<pc, red, accG, accL>>
-  /\ UNCHANGED <<P, epoch, bi, started, w, elog, trainLoss, valLoss, valAcc, flags, saved, caller, vpend, vseen>>
+  /\ UNCHANGED <<P, pc, epoch, bi, started, red, accG, accL, w, elog, trainLoss, valLoss, valAcc, flags, saved, caller, vpend, vseen>>
 
-\* The calling thread adds the results in INDEX order (rayon's indexed collect), whatever the completion order.
+\* The calling thread adds the results in INDEX order, whatever the completion order.  The implementation waits for
+\* the whole group (rayon's indexed collect) before it adds the first result; the model only demands what the
+\* property needs -- the next result in index order must be available -- so an implementation that adds results
+\* while later tasks of the group still run (e.g. slice by slice) is a behaviour of this model too.
+Done == {finished[i] : i \in 1..Len(finished)}
 Reduce ==
-  /\ pc = "reduce" /\ red < BatchLen(P, bi)
+  /\ pc = "samples" /\ red < BatchLen(P, bi)
   /\ LET s == First(P, bi) + red IN
+     /\ s \in Done
      /\ accG' = Append(accG, [s |-> s, v |-> Version])
      /\ accL' = Append(accL, s)
   /\ red' = red + 1
-  /\ pc' = IF red' = BatchLen(P, bi) THEN "update" ELSE "reduce"
+  /\ pc' = IF red' = BatchLen(P, bi) THEN "update" ELSE "samples"
   /\ UNCHANGED <<P, epoch, bi, started, finished, w, elog, trainLoss, valLoss, valAcc, flags, saved, caller, vpend, vseen>>
 
 \* One optimizer step on the summed gradients; step number = epoch.
@@ -224,7 +227,7 @@ NoLeak ==
   /\ pc = "vmap" => flags = AllOff(P)
   /\ \A f \in vseen : f = AllOff(P)
   /\ pc \in {"done", "vdone"} => flags = AllOff(P)
-  /\ pc \in {"samples", "reduce", "update"} => flags = AllOn(P)
+  /\ pc \in {"samples", "update"} => flags = AllOn(P)
 \* validate leaves the flags as it found them
 ValidateRestores == [][pc = "vmap" /\ pc' # "vmap" => flags' = (IF saved THEN AllOn(P) ELSE AllOff(P))]_vars
 
@@ -243,6 +246,6 @@ HistoriesOK ==
 ValOfRightWeights == \A e \in 1..Len(valAcc) : valAcc[e] = e * NB(P)
 
 TypeOK ==
-  /\ pc \in {"idle", "batch", "samples", "reduce", "update", "epochend", "venter", "vmap", "vpush", "stopcheck", "end", "done", "vdone"}
+  /\ pc \in {"idle", "batch", "samples", "update", "epochend", "venter", "vmap", "vpush", "stopcheck", "end", "done", "vdone"}
   /\ red \in 0..P.b
 =============================================================================
